@@ -4,10 +4,10 @@
    (the per-row fan-out is a fold whose result multiset is invariant under permutation of the work list), and the
    invariances of the specification (clause order, data partitioning, monotonicity).
    and their transfer to the planner model on D3 (corollaries of the C03 composition theorem).
-   OPEN (design-notes/C14.md): renaming invariance is checked by the correspondence only. *)
+   Renaming invariance: C14_rename (specification, every pattern) and C14_model_rename (planner model on D3). *)
 From Coq Require Import List ZArith NArith Bool Permutation.
 Import ListNotations.
-From BWPlanner Require Import Terms Rows Clause Store Fetch Plan PatternSpec Current Domain Corr Witnesses RowsProofs FetchProofs PlanProofs SpecProofs Compose Compose2 Compose3.
+From BWPlanner Require Import Terms Rows Clause Store Fetch Plan PatternSpec Current Domain Corr Witnesses RowsProofs FetchProofs PlanProofs SpecProofs Equiv Compose Compose2 Compose3 Rename.
 
 (* ---- scheduler independence, as far as the model can state it: specifyClauseWithTable starts one addSpecifiedData per row
    and appends in completion order; whatever the completion order, the table holds the same multiset of rows ... *)
@@ -94,6 +94,25 @@ Proof.
   intros mu. apply is_solution_monotone. exact HM.
 Qed.
 Print Assumptions C14_model_monotone.
+
+(* ---- a consistent renaming of the bindings (f injective, keeping "no name" = the empty string): the reference returns the
+   renamed rows, for EVERY pattern (OPTIONAL clauses included) ... *)
+Theorem C14_rename :
+  forall (f : str -> str), (forall a b, f a = f b -> a = b) -> f [] = [] ->
+    forall glo gs cs, spec_solutions glo gs (map (ren_clause f) cs) = map (ren_row f) (spec_solutions glo gs cs).
+Proof. exact spec_solutions_rename. Qed.
+Print Assumptions C14_rename.
+
+(* ... and so does the planner model on D3, row by row (up to the zone of an instant) *)
+Theorem C14_model_rename :
+  forall (f : str -> str), (forall a b, f a = f b -> a = b) -> f [] = [] ->
+    forall e gs glo cs outs outs' t,
+      D3 e gs cs outs = true -> D3 e gs (map (ren_clause f) cs) outs' = true ->
+      process_pattern e gs glo cs empty_table = Ok t ->
+      exists t', process_pattern e gs glo (map (ren_clause f) cs) empty_table = Ok t' /\
+                 Forall2 row_equiv (trows t') (map (ren_row f) (trows t)).
+Proof. exact model_rename. Qed.
+Print Assumptions C14_model_rename.
 
 (* non-vacuity: the hypotheses hold of real cases (a two-clause pattern, a two-row work list) *)
 Example C14_example :
